@@ -7,7 +7,16 @@ from inferno.core.infrastructure import Module, RecordTensor
 from inferno.functional import interpolation as I, extrapolation as E
 
 KEEP = []  # RecordTensor only weak-references its owner
-SDT = {"f64": torch.float64, "i64": torch.int64, "bool": torch.bool}   # storage / observation data types
+SDT = {"f64": torch.float64, "f32": torch.float32, "i64": torch.int64, "bool": torch.bool}   # storage / observation / time types
+
+
+def probe_older(prev_data, next_data, sample_at, step_time):
+    """harness probe (not a shipped kernel): makes 'interpolated, and from which older sample' observable"""
+    return prev_data + 100.0
+
+
+def probe_newer(prev_data, next_data, sample_at, step_time):
+    return next_data + 300.0
 
 
 def interp_of(ic, par):
@@ -21,7 +30,9 @@ def interp_of(ic, par):
         return I.interp_linear, None
     if ic == 4:
         return I.interp_expdecay, {"time_constant": par}
-    return I.interp_expratedecay, {"rate_constant": par}
+    if ic == 5:
+        return I.interp_expratedecay, {"rate_constant": par}
+    return (probe_older if ic == 6 else probe_newer), None
 
 
 def extrap_of(ec, par):
@@ -85,11 +96,17 @@ def restore(dst, src, via):
         dst.set_extra_state(dict(src.get_extra_state()))
 
 
-def apply(rt, op, shape, odt=torch.float64):
+def apply(rt, op, shape, odt=torch.float64, tdt=torch.float64):
     """odt: data type of the observations pushed / inserted (the first push into None storage creates
-    storage of that type); times are always float64"""
+    storage of that type); tdt: data type of the time tensors (the times of a float32 case are float32
+    values already, so the cast is exact); scalar times are python floats"""
     k = op[0]
     aux = None
+    if k == "fill":
+        for row in op[1]:
+            rt.push(torch.tensor(row, dtype=torch.float64).reshape(shape).to(odt), inplace=True)
+        assert rt.value.dtype == odt, (rt.value.dtype, odt)
+        return [1], aux
     if k == "push":
         rt.push(torch.tensor(op[1], dtype=torch.float64).reshape(shape).to(odt), inplace=True)
         assert rt.value.dtype == odt, (rt.value.dtype, odt)
@@ -104,7 +121,8 @@ def apply(rt, op, shape, odt=torch.float64):
     if k == "selT":
         _, tol, off, tshape, times, ic, par = op
         fn, kw = interp_of(ic, par)
-        tt = torch.tensor(times, dtype=torch.float64).reshape(tshape)
+        tt = torch.tensor(times, dtype=torch.float64).reshape(tshape).to(tdt)
+        assert tt.double().reshape(-1).tolist() == [float(x) for x in times]
         r = rt.select(tt, fn, tolerance=tol, offset=off, interp_kwargs=kw)
         # the same times through the scalar branch, element by element
         nel = 1
@@ -132,7 +150,7 @@ def apply(rt, op, shape, odt=torch.float64):
         _, sh, els, tol, off, tsh, times, ec, par, inplace = op
         fn, kw = extrap_of(ec, par)
         rt.insert(torch.tensor(els, dtype=torch.float64).reshape(sh).to(odt),
-                  torch.tensor(times, dtype=torch.float64).reshape(tsh), fn, tolerance=tol, offset=off,
+                  torch.tensor(times, dtype=torch.float64).reshape(tsh).to(tdt), fn, tolerance=tol, offset=off,
                   inplace=inplace, extrap_kwargs=kw)
         return [1], aux
     raise AssertionError(k)
@@ -141,7 +159,7 @@ def apply(rt, op, shape, odt=torch.float64):
 def step(rt, op, case):
     aux = None
     try:
-        o, aux = apply(rt, op, case["shape"], SDT[case.get("dtype", "f64")])
+        o, aux = apply(rt, op, case["shape"], SDT[case.get("dtype", "f64")], SDT[case.get("tdtype", "f64")])
         out = [0, o]
     except Exception as e:  # noqa
         c = exc_code(e)
